@@ -12,6 +12,9 @@ package bitmap
 // IPv4 range allocator. Abstract view: bits(a.bitmap)[i] <=> address start+i is outstanding.
 
 //@ guard IPv4Allocator.bitmap by l
+// concurrency (C04, C16): the bitmap contents are whatever other goroutines left when the lock is
+// acquired; the postconditions describe the critical section (old() = state at acquisition)
+//@ protects IPv4Allocator.l: bits(self.bitmap), blen(self.bitmap) invariant wf4(self)
 
 //@ pure func wf4(a *IPv4Allocator) bool = a != nil && a.bitmap != nil && a.start <= a.end && \
 //@     blen(a.bitmap) == uint(a.end - a.start) + 1 && \
@@ -57,6 +60,7 @@ package bitmap
 // outstanding, where block i is the /page prefix based at containing.IP + i*2^(128-page).
 
 //@ guard Allocator.bitmap by l
+//@ protects Allocator.l: bits(self.bitmap), blen(self.bitmap) invariant wf6(self)
 
 //@ pure func plen(a *Allocator) int = ones128(u128(a.containing.Mask))
 //@ pure func wf6(a *Allocator) bool = a != nil && a.bitmap != nil && \
